@@ -439,7 +439,7 @@ fn host_info(text: &str) -> HostInfo {
     HostInfo { text: text.to_string(), class, ascii, site, trailing_dot: text.ends_with('.') }
 }
 
-const SCHEMES_Q: [&str; 7] = ["http", "https", "ws", "wss", "ftp", "data", "HTTP"];
+const SCHEMES_Q: [&str; 8] = ["http", "https", "ws", "wss", "ftp", "data", "HTTP", "chrome-extension"];
 const SCHEMES_T: [&str; 11] = ["http", "https", "ws", "wss", "ftp", "data", "HTTP", "Wss", "x", "chrome-extension", "h2+a.b"];
 const SLASHES_Q: [&str; 4] = ["://", ":", ":/", ":/\\"];
 const SLASHES_T: [&str; 7] = ["://", ":", ":/", ":///", ":////", ":/\\", ":\\\\"];
